@@ -176,7 +176,7 @@ int main(int argc, char **argv) {
             long lkb = vh_locks - vh_unlocks, ovb = vh_overlap_copies, bfb = vh_badfree;
             int newmem = (int) (vh_step & 1);
             cmps = 0;
-            vh_watchdog(2);
+            vh_watchdog(6);
             errno = 0;
             vh_call_begin();
             if (inject) { if (inj_at) vh_fail_at = k; else vh_fail_from = k; }
